@@ -226,7 +226,7 @@ func Run(checkerDir string) ([]Result, error) {
 			}
 		}
 		res := norm.Plan(pkgs, known, "xpcheck")
-		okPlan := len(res.Overlay) == 1 && len(res.Inlined) == 2
+		okPlan := len(res.Overlay) == 1 && len(res.Inlined) == 4
 		detail := fmt.Sprintf("%d call sites inlined, %d left alone", len(res.Inlined), len(res.Skipped))
 		if okPlan {
 			cfg2 := *cfg
@@ -244,6 +244,20 @@ func Run(checkerDir string) ([]Result, error) {
 				okB, _ := cfgx.MustCross(call(b, ").Create", 0), cfgx.ErrEvents(call(b, ").Write", 0)).StrictOK(), nil)
 				add("normaliser: extracted helper, gate held", call(g, ").Write", 0) != nil && okG, "after inlining, Create in the caller needs ok(Write) of the helper's body")
 				add("normaliser: extracted helper, gate missing fires", call(b, ").Write", 0) != nil && !okB, "the helper's early `return nil` is a path to Create without ok(Write)")
+				cf := sp2[0].Func("ClosureFlag")
+				okC := len(cf.AnonFuncs) == 0
+				if okC {
+					cr := call(cf, ").Create", 0)
+					paths, _, okP := cfgx.FeasiblePaths(cr, 1000)
+					viol := 0
+					for _, p := range paths {
+						if !p.CrossesAny(cfgx.ErrEvents(call(cf, ").Write", 1)).OK) {
+							viol++
+						}
+					}
+					okC = okP && viol == 0 && len(paths) > 0
+				}
+				add("normaliser: closure-mutated flag", okC, "calls of a local closure are inlined and its definition dropped: the flag it clears is tracked like any local")
 			}
 		}
 		add("normaliser plans and type-checks", okPlan, detail)
